@@ -153,7 +153,15 @@ impl<'a> Runner<'a> {
                 if hit {
                     if storage {
                         if let Some(st) = self.storage.clone() { if let Some(g) = st.try_lock() {
+                            // right after the check's result the machine goes straight for the storage lock (end-of-check persist) and
+                            // reads the app set only once it has it: an embedder that holds the lock meanwhile may change the app set and
+                            // put it back before letting go without the machine noticing
+                            let saved = if prefix == "E result" { self.app_set.as_ref().and_then(|a| a.try_lock().map(|mut set| {
+                                let old = set.apps.clone();
+                                for app in set.apps.iter_mut() { app.cohort.hint = Some("changed-under-the-storage-lock".into()); }
+                                old })) } else { None };
                             self.contended += 1; self.hub.lock().unwrap().embedder_lock = true; let _ = self.poll_stream_once(); self.hub.lock().unwrap().embedder_lock = false;
+                            if let Some(old) = saved { if let Some(a) = self.app_set.as_ref() { if let Some(mut set) = a.try_lock() { set.apps = old; } } }
                             // lock order (documented on the struct: storage first): while the embedder holds the storage lock the machine
                             // must not sit on the app-set lock — an embedder that goes on to take the app set would deadlock with it
                             if self.app_set.as_ref().map(|a| a.try_lock().is_none()).unwrap_or(false) { self.hub.lock().unwrap().log("L held appset while waiting for storage".into()); }
